@@ -3,7 +3,8 @@
 VARIANT ?= fast
 FEAT ?= pinned
 REPO ?= /repo
-B := build/$(VARIANT)-$(FEAT)
+SUFFIX ?=
+B := build/$(VARIANT)-$(FEAT)$(SUFFIX)
 
 LDB_SRCS := $(shell sed -n '/^list(APPEND ldb_sources/,/)/p' $(REPO)/CMakeLists.txt | grep -o 'src/[A-Za-z0-9_/]*\.c')
 LDB_HDRS := $(wildcard $(REPO)/src/*.h $(REPO)/src/util/*.h $(REPO)/src/table/*.h $(REPO)/include/*.h)
